@@ -761,7 +761,7 @@ M('C16','handleshutdown-drops','runtime/workerpool/workerpool.go','''		if w.optC
 			task.run()
 		}''','''		if !w.optCancelPendingTasksOnShutdown {
 			task.run()
-		}''','conserve/worker runtime/workerpool.WorkerPool.handleShutdown')
+		}''','conserve/worker runtime/workerpool.WorkerPool.worker')
 M('C16','shutdown-no-queue-signal','runtime/workerpool/workerpool.go','''		w.Queue.SignalShutdown()
 ''','','shutdown/protocol runtime/workerpool.WorkerPool.Shutdown signals queue')
 M('C16','shutdown-one-signal','runtime/workerpool/workerpool.go','''		for range w.workerCount {
